@@ -18,7 +18,7 @@ FAULT_KINDS = ("short", "empty", "raise")
 
 
 def jobs(tier):
-    return [("standalone", tier)] + [(tier, c) for c in defs.chunks(defs.space(tier, "medium"), 24)]
+    return [("standalone", tier), ("lazy", tier)] + [(tier, c) for c in defs.chunks(defs.space(tier, "medium"), 24)]
 
 
 def _parse_stream(T, stream):
@@ -268,9 +268,78 @@ def standalone(tier) -> JobResult:
     return res
 
 
+def lazy(tier) -> JobResult:
+    """Lazily parsed pointer targets: a dereference whose target is cut off raises EOFError, fabricates nothing, and leaves the stream and the
+    types as they were (records parsed afterwards from the same stream equal those of a run without the failed dereference)."""
+    from dissect.cstruct import cstruct
+
+    res = JobResult()
+    targets = {"char": b"name\0", "uint16": b"\x34\x12", "in_t": b"\x07\x09", "uint32": b"\x01\x02\x03\x04", "wchar": b"a\0", "uint8[3]": b"\x01\x02\x03"}
+    for tname, tbytes in targets.items():
+        for ptr in ("uint8", "uint16", "uint32"):
+            for endian in "<>":
+                for compiled in (False, True):
+                    cs = cstruct(endian=endian, pointer=ptr)
+                    base, _, dims = tname.partition("[")
+                    decl = f"{base} (*p)[{dims}" if dims else f"{tname} *p"
+                    try:
+                        cs.load("struct in_t { uint8 p; uint8 q; }; struct R { uint8 id; " + decl + "; uint8 t; };", compiled=compiled)
+                    except Exception:  # noqa: BLE001
+                        continue
+                    psz = cs.pointer.size
+                    rec = lambda i, a: bytes([i]) + a.to_bytes(psz, "little" if endian == "<" else "big") + bytes([0x70 + i])  # noqa: E731
+                    rsz = 2 + psz
+                    taddr = 2 * rsz
+                    whole = rec(1, taddr) + rec(2, taddr) + tbytes
+                    for cut in range(taddr, len(whole) + 1):
+                        data = whole[:cut]
+                        truncated = cut < len(whole)
+                        case = {"lazy": tname, "ptr": ptr, "endian": endian, "compiled": compiled, "cut": cut}
+                        res.evaluations += 1
+                        res.states += 1
+                        res.transitions += 3
+                        res.nontrivial += 1
+                        try:
+                            ctl = io.BytesIO(whole)
+                            c1 = cs.R(ctl)
+                            c2 = impl.norm(cs.R(ctl))
+                            good = impl.norm(c1.p.dereference())
+                            s = io.BytesIO(data)
+                            r1 = cs.R(s)
+                            p0 = s.tell()
+                            try:
+                                got = impl.norm(r1.p.dereference())
+                                exc = None
+                            except Exception as e:  # noqa: BLE001
+                                got, exc = None, e
+                            p1 = s.tell()
+                            try:
+                                r2 = impl.norm(cs.R(s))
+                            except Exception as e:  # noqa: BLE001
+                                r2 = f"{impl.exc_sig(e)} {e!r}"
+                        except Exception as e:  # noqa: BLE001
+                            res.violations.append(Violation("lazy:raises", f"lazy:raises|{tname}", case, f"{tname} via {ptr} pointer, input cut at {cut}: {impl.exc_sig(e)} {e!r}", {"target": tname}))
+                            continue
+                        what = f"struct R {{ uint8 id; {decl}; uint8 t; }} {endian} compiled={compiled}, two records then the target {tbytes.hex()}, input cut at {cut}"
+                        if truncated and exc is None:
+                            res.violations.append(Violation("lazy:fabricated", f"lazy:fabricated|{tname}", case, f"{what}: dereference returned {got!r} from a truncated / unterminated target", {"target": tname}))
+                        elif truncated and not isinstance(exc, EOFError):
+                            res.violations.append(Violation("lazy:wrong-exception", f"lazy:wrong-exception|{tname}", case, f"{what}: {impl.exc_sig(exc)} {exc!r}, expected EOFError", {"target": tname}))
+                        elif not truncated and (exc is not None or not same(got, good)):
+                            res.violations.append(Violation("lazy:complete-target", f"lazy:complete-target|{tname}", case, f"{what}: {got!r} / {exc!r}, expected {good!r}", {"target": tname}))
+                        if p1 != p0:
+                            res.violations.append(Violation("residue:after-dereference", f"residue:after-dereference|{tname}", case, f"{what}: the dereference moved the stream from {p0} to {p1}", {"target": tname}))
+                        elif not same(r2, c2):
+                            res.violations.append(Violation("residue:after-dereference", f"residue:after-dereference|{tname}", case, f"{what}: next record {r2}, without the failed dereference {c2}", {"target": tname}))
+    res.samples.append({"lazy": list(targets), "rule": "two records + pointer target; every cut inside the target"})
+    return res
+
+
 def run(job) -> JobResult:
     if job[0] == "standalone":
         return standalone(job[1])
+    if job[0] == "lazy":
+        return lazy(job[1])
     res = JobResult()
     tier, chunk = job
     for names in chunk:
@@ -283,6 +352,8 @@ def run(job) -> JobResult:
 def replay(case):
     if "standalone" in case:
         return [v for v in standalone("thorough").violations if v.case == case]
+    if "lazy" in case:
+        return [v for v in lazy("thorough").violations if v.case == case]
     res = JobResult()
     check_case(tuple(case["atoms"]), case["endian"], case["align"], res, "thorough", only_input=case.get("input"))
     return res.violations
@@ -294,7 +365,7 @@ def meta(tier):
         "and as stream) and, at every read() call of the fault-free run, {short-by-one, empty, OSError} (thorough: also all pairs of short reads); "
         "oracle from the model's data-bit mask: a cut at or before the last data-carrying byte must raise EOFError, a withheld data byte must "
         "raise, an injected OSError must propagate, anything returned must equal the fault-free value; after failures the same types must "
-        "parse the full input as before; non-trivial = the fault removed a data-carrying byte or injected an error",
+        "parse the full input as before; lazily parsed pointer targets (6 target types x 3 pointer widths, every cut inside the target): EOFError, stream position and following records unchanged; non-trivial = the fault removed a data-carrying byte or injected an error",
         "bounds": {"definitions": "D(wide,2)+[EOF] tails + stand-alone scalars/arrays" if tier == "quick" else "D(wide,2)+D(core,3)+[EOF] tails+long-run + stand-alone scalars/arrays", "fault_bound": 1 if tier == "quick" else 2, "inputs_per_definition": 5 if tier == "quick" else 16},
         "assumptions": ["[EOF] arrays: only cuts before the array are premature; returned elements must be a prefix of the full decoding",
                         "read-to-end requests (read(-1)) are not short-read faulted"],
